@@ -59,6 +59,18 @@ def instances(tier, rng):
             extra.append({"cons": [es[:2]]})
             if len(es) >= 2:
                 extra.append({"cons": [[es[0], es[-1]]], "cov": [1, 2]})
+            if kind == "cyc":
+                # a subset constraint mixing an edge INSIDE a cycle with edges elsewhere: going round the cycle twice is not the
+                # same as using two of the listed edges
+                inside = C.scc_edges(u)
+                others = [list(e) for e in u["edges"] if list(e) not in inside]
+                if inside and others:
+                    e_in = rng.choice(inside)
+                    if len(others) >= 2:
+                        f, g = rng.sample(others, 2)
+                        extra.append({"cons": [[f, e_in, g]], "cov": [2, 3], "maybe_infeasible": True})
+                        feats.append({"cons": [[f, e_in, g]], "cov": [2, 3], "maybe_infeasible": True})
+                    extra.append({"cons": [[e_in, rng.choice(others)]], "maybe_infeasible": True})
             if kind == "dag" and len(es) >= 2:
                 # length coverage: several constraints over short / long edges, fraction of the listed LENGTH
                 ps = [C.route_edges(p) for p in u["proutes"]]
@@ -69,8 +81,10 @@ def instances(tier, rng):
                 if quick and rng.random() < 0.5:
                     feats.append(lc)
             for cfg in feats + (rng.sample(extra, 3) if quick else extra):
+                cfg = dict(cfg)
+                free = cfg.pop("maybe_infeasible", False)      # (no walk need contain the listed edges: TLC decides whether one does)
                 r = cover_rec(u, mincls, **dict(cfg))
-                r["expect_solved"] = True
+                r["expect_solved"] = not free
                 insts.append(r)
                 if rng.random() < (0.5 if quick else 1.0):
                     for k in (1, 2, 3):
